@@ -196,39 +196,59 @@ def gen_injection_cases(rng, per_proto, protos=None):
 
 
 def gen_resize_cases(rng):
-    """shrinking a buffer that holds messages (the property's own example): every protocol with a resizable queue,
-    filled to k messages, then resized to every smaller / larger depth, then drained and closed"""
+    """resizing a buffer that holds messages (the property's own example), in every geometry of the ring:
+    a queue of depth c0 whose read index was ADVANCED by adv receives, FILLED again with k messages (so that
+    for adv + k > slots the ring is wrapped), then resized to every smaller / larger depth, then drained
+    and closed -- every protocol with a resizable receive queue (lmq: cooked sub / pair / bus; socket-level
+    msgq: the raw sockets), and the same on the send side (push / pub / pair / bus per-pipe queues, raw uwq)"""
     cases = []
     wire = {"sub0_raw": "", "req0_raw": "80000001", "rep0_raw": "80000001", "surveyor0_raw": "80000001", "respondent0_raw": "80000001",
             "sub0": "", "pair0": "", "pair1": "00000001", "bus0": "", "bus0_raw": "", "pair1_raw": "00000001", "pair0_raw": ""}
     for proto, pre in wire.items():
-        for fill in (2, 5, 9):
-            for new in (0, 1, 2, 4, 8):
-                tags = Tags(rng)
-                L = ["open s0 " + proto]
-                if proto == "sub0":
-                    L.append("setopt s0 x sub -")
-                L += ["setopt s0 recv-buffer int 8", "conn s0 %d" % PEER[base(proto)]]
-                L += ["inject p0 %s%s" % (pre, tags.next()) for _ in range(fill)]
-                L += ["setopt s0 recv-buffer int %d" % new, "recvnb s0", "recv s0 a0", "inject p0 %s%s" % (pre, tags.next()), "recvnb s0"]
-                if rng.random() < 0.5:
-                    L += ["drop p0"]
-                L += ["close s0"]
-                cases.append(L)
+        for c0 in (1, 2, 3, 8):
+            for adv in (0, 1, 2, 3, 5):
+                for fill in (1, 2, 3, 4, 9):
+                    if fill > c0 + 2 or (c0 == 8 and adv not in (0, 3)):
+                        continue
+                    for new in (0, 1, 2, 4, 8, 16):
+                        if new == c0:
+                            continue
+                        tags = Tags(rng)
+                        L = ["open s0 " + proto]
+                        if proto == "sub0":
+                            L.append("setopt s0 x sub -")
+                        L += ["setopt s0 recv-buffer int %d" % c0, "conn s0 %d" % PEER[base(proto)]]
+                        for _ in range(adv):                      # move the ring's read index
+                            L += ["inject p0 %s%s" % (pre, tags.next()), "recvnb s0"]
+                        L += ["inject p0 %s%s" % (pre, tags.next()) for _ in range(fill)]
+                        L += ["setopt s0 recv-buffer int %d" % new]
+                        L += ["recvnb s0"] * min(fill, 3)
+                        L += ["recv s0 a0", "inject p0 %s%s" % (pre, tags.next()), "recvnb s0"]
+                        if rng.random() < 0.3:
+                            L += ["drop p0"]
+                        L += ["close s0"]
+                        cases.append(L)
     for proto in ("push0", "pub0", "pair0", "pair1", "bus0", "req0_raw", "surveyor0_raw"):
-        for fill in (2, 5, 9):
-            for new in (0, 1, 2, 4):
-                tags = Tags(rng)
-                h = {"req0_raw": "80000001", "surveyor0_raw": "80000001"}.get(proto, "-")
-                L = ["open s0 " + proto, "setopt s0 send-buffer int 8"]
-                if proto in ("pub0", "bus0", "surveyor0_raw"):
-                    L += ["conn s0 %d" % PEER[base(proto)]]          # a busy pipe makes the per-pipe queue fill
-                L += ["send s0 a%d %s %s" % (k, h, tags.next()) for k in range(fill)]
-                L += ["setopt s0 send-buffer int %d" % new]
-                if proto not in ("pub0", "bus0", "surveyor0_raw"):
-                    L += ["conn s0 %d" % PEER[base(proto)]]
-                L += ["sent p0", "sent p0", "sent p0", "cancel a1", "close s0"]
-                cases.append(L)
+        h = {"req0_raw": "80000001", "surveyor0_raw": "80000001"}.get(proto, "-")
+        for c0 in (1, 2, 3, 8):
+            for adv in (0, 1, 3):
+                for fill in (1, 2, 4, 9):
+                    if fill > c0 + 1:
+                        continue
+                    for new in (0, 1, 2, 4, 16):
+                        if new == c0:
+                            continue
+                        tags = Tags(rng)
+                        L = ["open s0 " + proto, "setopt s0 send-buffer int %d" % c0, "conn s0 %d" % PEER[base(proto)]]
+                        na = 0
+                        # the first send occupies the pipe; adv further sends go through the queue and out again (read index moves)
+                        L.append("send s0 a%d %s %s" % (na, h, tags.next())); na += 1
+                        for _ in range(adv):
+                            L += ["send s0 a%d %s %s" % (na, h, tags.next()), "sent p0"]; na += 1
+                        for _ in range(fill):
+                            L.append("send s0 a%d %s %s" % (na, h, tags.next())); na += 1
+                        L += ["setopt s0 send-buffer int %d" % new, "sent p0", "sent p0", "sent p0", "cancel a%d" % (na - 1), "sent p0", "close s0"]
+                        cases.append(L)
     return cases
 
 
@@ -361,6 +381,19 @@ def oracle(case, lines):
     return None
 
 
+BUDGET = {"deadline": None, "skipped": []}
+
+
+def over_budget(label):
+    """on a tree that violates the property every batch may crash and be shrunk: stop once the run has what it
+    needs (a few violations with replay files) or is out of time -- a VIOLATION must come out, not a kill"""
+    if BUDGET["deadline"] is not None and time.time() > BUDGET["deadline"]:
+        if label not in BUDGET["skipped"]:
+            BUDGET["skipped"].append(label)
+        return True
+    return False
+
+
 def fresh_impl(impl):
     """the scratch build directory may have been evicted by a concurrent run of another property: rebuild it"""
     if os.path.exists(impl):
@@ -382,16 +415,20 @@ def ledger_run(rep, impl, model, cases, label, stats):
         o, crash = run_cases(impl, [c], timeout=120)
         return crash is not None or oracle(c, o[0]) is not None
 
+    found = 0
     for b0 in range(0, len(cases), B):
+        if found >= 4 or over_budget(label):
+            break
         batch = cases[b0:b0 + B]
         iout, crash = run_cases(impl, batch, timeout=240)
         mout, mcrash = run_cases(model, batch, timeout=240)
         if crash:
             ci, rc, errtxt = crash
             small = batch[ci]
+            found += 1
             try:
-                if rc != -9:      # (a hang is not shrunk: every probe would cost a timeout)
-                    small = ddmin(batch[ci], lambda c: run_cases(impl, [c], timeout=30)[1] is not None, max_iter=40)
+                if rc != -9 and found <= 2:      # (a hang is not shrunk: every probe would cost a timeout)
+                    small = ddmin(batch[ci], lambda c: run_cases(impl, [c], timeout=20)[1] is not None, max_iter=30)
             except Exception:
                 pass
             p = rep.replay_file("crash_%s_%d.case" % (label, b0 + ci), "# implementation crashed / hung / sanitizer report (rc=%s)\n# %s\n" % (rc, errtxt.replace("\n", "\n# ")) + "\n".join(small) + "\n")
@@ -416,8 +453,12 @@ def ledger_run(rep, impl, model, cases, label, stats):
             if bad:
                 k, text, key = bad
                 small = case
+                found += 1
+                if found > 6:
+                    continue
                 try:
-                    small = ddmin(case, spec_fails, max_iter=100)
+                    if found <= 2:
+                        small = ddmin(case, spec_fails, max_iter=40)
                 except Exception:
                     pass
                 p = rep.replay_file("spec_%s_%d.case" % (label, b0 + ci), "# %s at op %d (%s)\n" % (text, k, case[min(k, len(case) - 1)]) + "\n".join(small) + "\n")
@@ -598,7 +639,10 @@ def gen_device_stress(rng, k):
 def balance_run(rep, impl, programs, stats, B=25, tmo=90):
     """programs over real transports: judge only what cannot depend on timing"""
     impl = fresh_impl(impl)
+    found = 0
     for b0 in range(0, len(programs), B):
+        if found >= 3 or over_budget("balance"):
+            break
         batch = programs[b0:b0 + B]
         out, crash = run_cases(impl, batch, timeout=tmo)
         script = []
@@ -613,6 +657,7 @@ def balance_run(rep, impl, programs, stats, B=25, tmo=90):
                 stats["hangs"] = stats.get("hangs", 0) + 1
                 rep.replay_file("hang_real_%d.case" % (b0 + ci), "# the process did not finish within the batch timeout and printed no sanitizer report (not judged by C03)\n" + "\n".join(script) + "\n")
                 continue
+            found += 1
             p = rep.replay_file("crash_real_%d.case" % (b0 + ci), "# implementation crashed / sanitizer report (rc=%s) in a program over a real transport\n# (replay: the whole batch, one process)\n# %s\n" % (rc, errtxt.replace("\n", "\n# ")) + "\n".join(script) + "\n")
             rep.violation(p, "real transports: crash / sanitizer report (rc=%s): %s" % (rc, san_summary(errtxt)))
             continue
@@ -629,6 +674,7 @@ def balance_run(rep, impl, programs, stats, B=25, tmo=90):
                     bad = "a failed send did not leave the message attached to the aio"
                 if bad:
                     key = None
+                    found += 1
                     p = rep.replay_file("real_%d.case" % (b0 + ci), "# %s\n" % bad + "\n".join(c) + "\n")
                     rep.violation(p, "real transports: " + bad, key=key)
                     break
@@ -637,6 +683,8 @@ def balance_run(rep, impl, programs, stats, B=25, tmo=90):
 
 
 def fini_check(rep, impl, programs, stats, key=None, tmo=300):
+    if over_budget("fini") or len(rep.violations) >= 6:
+        return
     impl = fresh_impl(impl)
     script = []
     for k, c in enumerate(programs):
@@ -701,6 +749,8 @@ def run(tier, seed, replay=None):
     rep.cov["hook_h3"] = h3
     rep.cov["driver_hello"] = hello
     rng = random.Random(seed)
+    BUDGET["deadline"] = time.time() + (240 if tier == "quick" else 2700)
+    BUDGET["skipped"] = []
     stats = {"cases": 0, "nontrivial": set(), "maxrefs": 0, "failed_sends": 0, "diverged": 0, "programs": 0}
     os.makedirs(SCRATCH, exist_ok=True)
     if replay:
@@ -727,7 +777,7 @@ def run(tier, seed, replay=None):
         inj = gen_injection_cases(rng, 40 if quick else None)
         rsz = gen_resize_cases(rng)
         if quick:
-            rsz = rng.sample(rsz, 120)
+            rsz = rng.sample(rsz, 2500)
         ledger_run(rep, impl, model, cases + rsz, "resize", stats)
         ledger_run(rep, impl, model, inj, "inject", stats)
         rep.cov["injection_cases"] = len(inj)
@@ -774,6 +824,7 @@ def run(tier, seed, replay=None):
     rep.cov["model_impl_divergences"] = stats["diverged"]
     rep.cov["fini_line"] = stats.get("fini", "")
     rep.cov["hangs_not_judged"] = stats.get("hangs", 0)
+    rep.cov["phases_cut_short_by_time_budget"] = list(BUDGET["skipped"])
     rep.cov["rule"] = ("ledger runs: scripts on one socket of every protocol (cooked and raw) over the deterministic transport -- "
                        "each protocol's canonical exchange with every settable option value / cancel / zero-timeout aio / peer loss / "
                        "failed transport send / context open+close / clock advance / socket close inserted at EVERY position, random histories, "
